@@ -114,7 +114,7 @@ pub fn run(p: &Params, rep: &mut Report) {
         "an edited serialisation that no longer loads is skipped and counted".into(),
         "annotations that select no text (or empty text) carry no validation information and are not judged".into(),
     ];
-    let total: u64 = if p.thorough { 10000 } else { 300 };
+    let total: u64 = if p.thorough { 10000 } else { 4000 };
     for k in p.cases(total) {
         rep.current_case = p.case_coord(k);
         rep.cases += 1;
